@@ -108,12 +108,29 @@ def w_ortho_trunc(ctx, rng, idx):
     call('TT.ortho_left', lambda: t.ortho_left(max_rank=mr, threshold=thr), prop=P)
 
 
+def w_failpoint(ctx, rng, idx):
+    """truncating sweeps with the default SVD driver failing (LinAlgError injected at the LAPACK boundary before the input is
+    touched): the gesvd fallback branch must satisfy the same rank and error bounds"""
+    probe.S.failpoint_svd = True
+    try:
+        w_ortho_trunc(ctx, rng, idx)
+    finally:
+        probe.S.failpoint_svd = False
+
+
+def finish(ctx):
+    if ctx.workload_counts.get('failpoint', 0) > 0:
+        ctx.checks['C04|failpoint:default_svd_driver_failure_injected'] += probe.S.failpoint_hits
+    ctx.events['failpoint_hits_total'] += probe.S.failpoint_hits
+
+
 WORKLOADS = [
     Workload('from_array', w_from_array, 320, 8000),
     Workload('ortho_trunc', w_ortho_trunc, 200, 5000),
+    Workload('failpoint', w_failpoint, 40, 800),
     ambient.WORKLOAD,
 ]
-REQUIRED = ['C04|TT.__init__:rank_bound', 'C04|TT.__init__:quasi_optimal_error', 'C04|TT.__init__:threshold_error',
+REQUIRED = ['C04|failpoint:default_svd_driver_failure_injected', 'C04|TT.__init__:rank_bound', 'C04|TT.__init__:quasi_optimal_error', 'C04|TT.__init__:threshold_error',
             'C04|TT.__init__:exact_without_truncation', 'C04|TT.ortho:rank_bound', 'C04|TT.ortho:quasi_optimal_error',
             'C04|TT.ortho_right:rank_bound', 'C04|TT.ortho_left:rank_bound', 'C04|TT.ortho_right:quasi_optimal_error',
             'C04|TT.ortho_left:quasi_optimal_error']
